@@ -411,6 +411,66 @@ impl Sys for Seq {
     }
 }
 
+// ------------------------------------------------------------------------------------------
+// origins given as full URLs (path, query, fragment, user info; characters that need escaping in
+// JSON or survive URL serialisation raw): clientDataJSON of the registration and of a following
+// assertion is a JSON object whose origin member names the caller's origin - either the origin's
+// serialisation or the URL the caller passed (what the pinned client puts there), never anything else
+pub const ORIGIN_URLS: [&str; 14] = [
+    "https://example.com/sso?return=\\billing",
+    "https://example.com/sso?return=\\home#\\next",
+    "https://example.com/#frag\\ment",
+    "https://example.com/a%22b?q=%22quoted%22",
+    "https://example.com/p\u{e4}th?q=\u{fc}#\u{f6}",
+    "https://example.com:8443/x/../y?z",
+    "https://user:pw@example.com/",
+    "https://example.com/?a=1&b=\\u0041",
+    "https://example.com/?\\\\",
+    "https://example.com/#\\\"",
+    "https://example.com/?tab=\t&nl=x",
+    "https://example.com/'single'",
+    "https://example.com/%5C?x=%5C",
+    "https://example.com",
+];
+fn eval_origin_url(text: &str) -> Vec<(String, String)> {
+    use passkey_client::DefaultClientData;
+    let mut v = vec![];
+    let Ok(url) = url::Url::parse(text) else { return v };
+    let accepted: Vec<String> = vec![url.origin().ascii_serialization(), url.origin().unicode_serialization(), url.as_str().trim_end_matches('/').to_string(), url.as_str().to_string()];
+    let store = Shared::new(RefStore::new());
+    let mut client = passkey_client::Client::new(passkey_authenticator::Authenticator::new(passkey_types::ctap2::Aaguid::new_empty(), store.clone(), ScriptedUv::consenting(Log::new())));
+    let check = |what: &str, cdj: &[u8], ty: &str, challenge: &[u8], v: &mut Vec<(String, String)>| match serde_json::from_slice::<Value>(cdj) {
+        Err(e) => v.push((format!("{what}-client-data-not-json"), format!("clientDataJSON of the {what} from {text:?} does not parse as JSON: {e}"))),
+        Ok(j) => {
+            if j["type"] != ty {
+                v.push((format!("{what}-client-data-type"), format!("type = {}", j["type"])));
+            }
+            if j["challenge"].as_str() != Some(&crate::oracles::b64::url_nopad(challenge)) {
+                v.push((format!("{what}-client-data-challenge"), format!("challenge = {}", j["challenge"])));
+            }
+            match j["origin"].as_str() {
+                Some(o) if accepted.iter().any(|a| a == o) => {}
+                other => v.push((format!("{what}-client-data-origin"), format!("origin member {other:?} names neither the origin nor the URL the caller passed ({text:?})"))),
+            }
+        }
+    };
+    let opts = creation_options(Reg { challenge: vec![5, 6, 7, 8], ..Default::default() });
+    match par::catch(|| crate::core::exec::block_on(client.register(&url, opts, DefaultClientData))) {
+        Err(p) => v.push(("panic".into(), p)),
+        Ok(Err(e)) => v.push(("registration-fails".into(), format!("registration from {text:?} failed: {e:?}"))),
+        Ok(Ok(c)) => {
+            check("registration", &c.response.client_data_json, "webauthn.create", &[5, 6, 7, 8], &mut v);
+            let opts = request_options(Auth { challenge: vec![9, 9, 9], allow: Some(vec![c.raw_id.to_vec()]), ..Default::default() });
+            match par::catch(|| crate::core::exec::block_on(client.authenticate(&url, opts, DefaultClientData))) {
+                Err(p) => v.push(("panic".into(), p)),
+                Ok(Err(e)) => v.push(("assertion-fails".into(), format!("assertion from {text:?} failed: {e:?}"))),
+                Ok(Ok(a)) => check("assertion", &a.response.client_data_json, "webauthn.get", &[9, 9, 9], &mut v),
+            }
+        }
+    }
+    v
+}
+
 pub fn run(ctx: &Ctx) -> Result<Run, String> {
     let cs = cases(ctx.tier);
     let mut stats = par::sweep_cases(&cs, ctx.threads, |c, st| {
@@ -420,6 +480,12 @@ pub fn run(ctx: &Ctx) -> Result<Run, String> {
     });
     for c in cs.iter().step_by(cs.len() / 3 + 1) {
         stats.samples.push(serde_json::to_value(c).unwrap());
+    }
+    for (i, u) in ORIGIN_URLS.iter().enumerate() {
+        stats.case(&("origin-url", i), true, "origin-url");
+        for (k, d) in eval_origin_url(u) {
+            stats.finding(Finding::new(format!("origin-url/kind={k}"), d, json!({"origin_url": i})));
+        }
     }
     let (mut states, mut transitions) = (0u64, 0u64);
     for memory in [false, true] {
@@ -436,7 +502,7 @@ pub fn run(ctx: &Ctx) -> Result<Run, String> {
     let single = cs.len() as u64;
     let mut run = Run::from_stats(
         "model_checking",
-        "a run of 96 (thorough 400) registrations on one thread over seven authenticators with credential-id lengths 16/20/33/60/64/32/48 and PRF secrets: no 8-byte window of a credential id or secret may occur in one drawn earlier; single registrations: full product of 10 challenges (lengths 0..64, base64url-discriminating bytes) x 6 accepted origin/RP pairs (host=RP, sub-domain, port, IDN, localhost, Android) x 9 algorithm lists (incl. entries of unknown credential type that carry an unsupported algorithm) x 3 client-data modes x counter on/off x {RefStore, Arc<Mutex<MemoryStore>>}, users x orgs x modes x rk, and all 256 requested credential-id lengths; sequences: BFS over register(rp in 2, user in 2, rk) – so the same account registers repeatedly – from the empty and two seeded stores, on the contract store and on Arc<Mutex<MemoryStore>>. Every response is verified by an independent relying-party implementation and the store delta is compared. Non-trivial = distinct case that produced a credential or the unsupported-algorithm refusal",
+        "a run of 96 (thorough 400) registrations on one thread over seven authenticators with credential-id lengths 16/20/33/60/64/32/48 and PRF secrets: no 8-byte window of a credential id or secret may occur in one drawn earlier; 14 origins given as full URLs (paths, queries, fragments, user info; backslashes, quotes, non-ASCII and escapes that survive URL serialisation): clientDataJSON of the registration and of a following assertion parses as JSON and names the caller's origin; single registrations: full product of 10 challenges (lengths 0..64, base64url-discriminating bytes) x 6 accepted origin/RP pairs (host=RP, sub-domain, port, IDN, localhost, Android) x 9 algorithm lists (incl. entries of unknown credential type that carry an unsupported algorithm) x 3 client-data modes x counter on/off x {RefStore, Arc<Mutex<MemoryStore>>}, users x orgs x modes x rk, and all 256 requested credential-id lengths; sequences: BFS over register(rp in 2, user in 2, rk) – so the same account registers repeatedly – from the empty and two seeded stores, on the contract store and on Arc<Mutex<MemoryStore>>. Every response is verified by an independent relying-party implementation and the store delta is compared. Non-trivial = distinct case that produced a credential or the unsupported-algorithm refusal",
         true,
         stats,
     );
@@ -450,6 +516,9 @@ pub fn run(ctx: &Ctx) -> Result<Run, String> {
 pub fn replay(_ctx: &Ctx, case: &Value) -> Result<Vec<Finding>, String> {
     if let Some(fs) = super::inst::long_run_replay(case, "long-run") {
         return Ok(fs);
+    }
+    if let Some(i) = case.get("origin_url").and_then(|i| i.as_u64()) {
+        return Ok(eval_origin_url(ORIGIN_URLS[i as usize % ORIGIN_URLS.len()]).into_iter().map(|(k, d)| Finding::new(format!("origin-url/kind={k}"), d, case.clone())).collect());
     }
     if case.get("seq_init").is_some() {
         let init = case["seq_init"].as_u64().unwrap_or(0) as usize;
